@@ -283,6 +283,20 @@ def build_args(call):
             return {"add": lambda: x + y, "sub": lambda: x - y, "neg": lambda: -x, "abs": lambda: abs(x), "mul": lambda: x * k,
                     "div": lambda: x / k, "lt": lambda: x < y, "eq": lambda: x == y, "hp": lambda: x.hp(), "dms": lambda: (x.dms() if hasattr(x, "dms") else x.ddm())}[op]()
         return f, [_angle_obj(a["c1"], a["x"]), _angle_obj(a["c2"], a["y"]), a["op"], a["k"]]
+    if fn == "angle_rounded":
+        # a DMS / DDM object whose last field was rounded up to 60 by the library's own round() (1d 59m 60.0s, 1d 60.0m)
+        an = repo.mod("geodepy.angles")
+        v = a["d"] + a["m"] / 60.0
+        if a["cls"] == "dms":
+            obj = round(an.DMSAngle(a["d"], a["m"], 59.9996, positive=a["pos"]), 3)
+        else:
+            obj = round(an.DDMAngle(a["d"], a["m"] + 0.99996, positive=a["pos"]), 4)
+
+        def f(x, op):
+            return {"dec": lambda: x.dec(), "hp": lambda: x.hp(), "str": lambda: str(x), "add": lambda: x + x, "eq": lambda: x == x,
+                    "lt": lambda: x < an.DECAngle(v), "llh2xyz": lambda: cv.llh2xyz(x, x), "rad": lambda: x.rad(),
+                    "vincdir": lambda: gd.vincdir(x, x, x, 1000.0)}[op]()
+        return f, [obj, a["op"]]
     if fn == "ntv2":
         nt = repo.mod("geodepy.ntv2reader")
         path = _ntv2_fixture()
@@ -439,6 +453,8 @@ def call_strategy(families=False):
             k=st.sampled_from([2, 0.5, -3, 1.5])),
     ]
     pool += [
+        _fd("angle_rounded", cls=st.sampled_from(["dms", "ddm"]), d=st.integers(0, 80), m=st.sampled_from([0, 29, 58, 59]), pos=st.booleans(),
+            op=st.sampled_from(["dec", "hp", "str", "add", "eq", "lt", "llh2xyz", "rad", "vincdir"])),
         _fd("ntv2", lat=S.floats(-35.9, -31.1), lon=S.floats(144.1, 149.9), forward=st.booleans(), method=st.sampled_from(["bilinear", "bicubic"])),
         _fd("ntv2", lat=S.floats(-33.9, -32.1), lon=S.floats(146.1, 147.9), forward=st.booleans(), method=st.sampled_from(["bilinear", "bicubic"])),
     ]
